@@ -95,8 +95,13 @@ def make(rng, kind):
         cfg["simulation"]["sessions"] = sessions
         cfg["E0"] = {"class": "TradingHaltRule", "targetMarkets": list(names), "triggerChangeRate": rng.choice([0.0625, 0.03125]),
                      "haltingTimeLength": hl}
-        sessions[0]["events"] = ["E0"]
+        sessions[0]["events"] = ["E0"] + (["PE"] if "PE" in cfg else [])
         return cfg
+    if rng.random() < 0.4:
+        # a user-written event hooked after every fill (and before every market step), declared in the first session: it is told
+        # about every fill whatever the built-in events do in between
+        cfg["PE"] = {"class": "ProbeEvent", "hooks": [["execution", False, None, ""], ["market", True, None, ""]]}
+        sessions[0].setdefault("events", []).append("PE")
     if has_index and rng.random() < 0.4:
         s0 = rng.choice(sessions)
         cfg["DUP"] = {"class": "ProbeEvent", "hooks": [], "dupRegister": ["IDX", rng.choice(cfg["IDX"]["markets"]), rng.randint(0, 2)]}
@@ -115,6 +120,8 @@ def make(rng, kind):
             if kd == "fshock":
                 tgt = rng.choice(names)
                 ln = rng.randint(1, 2)
+                if rng.random() < 0.1:
+                    ln = 0                    # an empty window: the shock never fires
                 if shock_budget[tgt] < ln:
                     continue
                 shock_budget[tgt] -= ln
@@ -124,7 +131,7 @@ def make(rng, kind):
                 tgt = rng.choice(allm)
                 trig = rng.randint(0, steps - 1)
                 cfg[name] = {"class": "OrderMistakeShock", "target": tgt, "triggerTime": trig,
-                             "priceChangeRate": rng.choice([0.5, -0.5, 1.0, -0.25, 0.25]), "orderVolume": rng.choice([1, 7, 30]),
+                             "priceChangeRate": rng.choice([0.5, -0.5, 1.0, -0.25, 0.25, 0.0]), "orderVolume": rng.choice([1, 7, 30]),
                              "orderTimeLength": rng.choice([1, 3, 10]), "enabled": enabled}
             elif kd == "plimit":
                 tg = rng.sample(names, rng.randint(1, len(names)))
@@ -132,9 +139,12 @@ def make(rng, kind):
                     tg = []                 # a rule without targets limits nothing
                 cfg[name] = {"class": "PriceLimitRule", "targetMarkets": tg, "triggerChangeRate": rng.choice([0.125, 0.25, 0.0625]),
                              "enabled": enabled}
+                if rng.random() < 0.2 and len(allm) >= 2:
+                    cfg[name]["referenceMarket"] = rng.choice(allm)      # obsolete key, ignored with a warning: every target has its own band
             elif kd == "halt":
                 tg = rng.sample(names, rng.randint(1, len(names)))
-                cfg[name] = {"class": "TradingHaltRule", "targetMarkets": tg, "triggerChangeRate": rng.choice([0.125, 0.0625, 0.25]),
+                cfg[name] = {"class": "TradingHaltRule", "targetMarkets": tg,
+                             "triggerChangeRate": rng.choice([0.125, 0.0625, 0.25, 0.125, 0.0625, 0.25, -0.125]),    # (a negative rate counts by its size)
                              "haltingTimeLength": rng.choice([1, 2, 3] if kind != "haltx" else [3, 4, 6]), "enabled": enabled or kind == "haltx"}
             if kd == "plimit" and name in cfg and rng.random() < 0.35:
                 # another event with a hook LISTED FOR A TIME on the same kind of occurrence (an order mistake shock, on a market
